@@ -1,0 +1,52 @@
+//go:build verif
+
+// Contracts for package badgerstore, read by the verifier in /verif (build tag verif).
+// Comment-only file; see /verif/DESIGN.md section 3 for the syntax.
+
+package badgerstore
+
+//@ props C13
+//@ # index entry layout: <Name> ':' <value> 0x00 <rname>
+//@ func (idx Index) getKey(rname []byte, value []byte) (b []byte)
+//@   modifies alloc, bytes
+//@   ensures fresh: freshbytes(b)
+//@   ensures length: len(b) == len(idx.Name) + len(value) + len(rname) + 2
+//@   ensures name: bytes(b)[0:len(idx.Name)] == idx.Name && b[len(idx.Name)] == ':'
+//@   ensures value: bytes(b)[len(idx.Name)+1:len(idx.Name)+1+len(value)] == old(bytes(value))
+//@   ensures sep: b[len(idx.Name)+1+len(value)] == 0
+//@   ensures id: bytes(b)[len(idx.Name)+2+len(value):] == old(bytes(rname))
+//@ func (idx Index) getQuery(keyPrefix []byte) (b []byte)
+//@   modifies alloc, bytes
+//@   ensures fresh: freshbytes(b)
+//@   ensures length: len(b) == len(idx.Name) + len(keyPrefix) + 1
+//@   ensures name: bytes(b)[0:len(idx.Name)] == idx.Name && b[len(idx.Name)] == ':'
+//@   ensures prefix: bytes(b)[len(idx.Name)+1:] == old(bytes(keyPrefix))
+//@
+//@ props C14
+//@ # the index-query callback, key functions and key filters are client code; they are assumed to be
+//@ # functions of their arguments that do not modify the byte slices they are given
+//@ uninterpreted func fpred(f ref, key string) bool
+//@ func callback.iqCB(self ref, qs *QueryStore, q url.Values) (iq *IndexQuery, err error)
+//@   modifies alloc
+//@   ensures imp(isNil(err), iq != nil && iq.Index.Key != nil)
+//@ func callback.keyCB(self ref, v interface{}) (k []byte)
+//@   modifies alloc
+//@   ensures unchanged("bytes")
+//@ func callback.filterCB(self ref, key []byte) (ok bool)
+//@   ensures ok == fpred(self, bytes(key))
+//@
+//@ func (qc queryChange) affectsQuery(q url.Values) (res bool, err error)
+//@   requires qc.qs != nil && qc.qs.iq != nil
+//@   modifies alloc
+//@   callback iq iqCB
+//@   callback Key keyCB
+//@   callback FilterKeys filterCB
+//@   ghost exit :: assert sem: imp(isNil(err), res == (
+//@       !((ref(beforeKey) != 0 && ref(afterKey) != 0 && bytes(beforeKey) == bytes(afterKey)) || (ref(beforeKey) == 0 && ref(afterKey) == 0))
+//@       && ((!isNil(qc.before) && len(iq.KeyPrefix) <= len(beforeKey) && bytes(beforeKey)[0:len(iq.KeyPrefix)] == bytes(iq.KeyPrefix) && imp(iq.FilterKeys != nil, fpred(ref(iq.FilterKeys), bytes(beforeKey))))
+//@        || (!isNil(qc.after) && len(iq.KeyPrefix) <= len(afterKey) && bytes(afterKey)[0:len(iq.KeyPrefix)] == bytes(iq.KeyPrefix) && imp(iq.FilterKeys != nil, fpred(ref(iq.FilterKeys), bytes(afterKey)))))))
+//@   ensures imp(!isNil(err), !res)
+//@ func (qc queryChange) Events(q url.Values) (evs []store.ResultEvent, reset bool, err error)
+//@   requires qc.qs != nil && qc.qs.iq != nil
+//@   modifies alloc
+//@   ensures ref(evs) == 0 && imp(!isNil(err), !reset)
